@@ -265,7 +265,8 @@ func (req *SrvReq) Process() {
 	srv := conn.Srv
 	tc := req.Tc
 
-	if tc.Fid != NOFID && tc.Type != Tattach {
+	switch tc.Type {
+	case Twalk, Topen, Tcreate, Tread, Twrite, Tclunk, Tremove, Tstat, Twstat:
 		srv.Lock()
 		req.Fid = conn.FidGet(tc.Fid)
 		srv.Unlock()
